@@ -817,7 +817,8 @@ class Executor:
             yield from output
 
     def _get_rotation_angle_from_operands(self, app_id: int, n: int, d: int) -> float:
-        return float(n * np.pi / 2**d)
+        # (the integer values: an int subclass can carry its value in `__int__`)
+        return float(int(n) * np.pi / 2 ** int(d))
 
     def _do_single_qubit_rotation(
         self,
